@@ -17,6 +17,7 @@ import (
 	"reservoir/proxy/responder"
 	"reservoir/utils/httplistener"
 	"reservoir/utils/typeutils"
+	"reservoir/utils/verifhook"
 	"time"
 )
 
@@ -202,6 +203,7 @@ func (p *Proxy) processRequest(r responder.Responder, req *http.Request, key cac
 
 	fetched, err := p.fetch.dedupFetch(req, key, clientHd)
 	latency := time.Since(startTime)
+	verifhook.Point("proxy.beforeRespond", key.Hex)
 
 	if err != nil {
 		slog.Error("Error fetching resource", "url", req.URL, "key", key, "error", err)
